@@ -198,3 +198,29 @@ fn c06_slot_reported_for_constant_key_mixed_use() {
     }
     run_cases("c06_mixed_use", cases);
 }
+
+/// histories on one key and paths that do not end in a halting instruction
+#[test]
+fn c06_slot_reported_for_constant_key_histories_and_open_ended_paths() {
+    let mut cases = vec![];
+    for &k in &literal_keys(0) {
+        // write 7 then write literal 0 to the same key
+        let mut c = vec![0x60, 0x07]; p32(&mut c, k); c.push(0x55); c.extend([0x60, 0x00]); p32(&mut c, k); c.extend([0x55, 0x00]);
+        cases.push(Case { ob: "slots.write_then_clear", what: format!("sstore({k:#x},7); sstore({k:#x},0)"), code: c, must: vec![k] });
+        // read (result discarded) then write literal 0
+        let mut c = vec![]; p32(&mut c, k); c.extend([0x54, 0x50, 0x60, 0x00]); p32(&mut c, k); c.extend([0x55, 0x00]);
+        cases.push(Case { ob: "slots.write_then_clear", what: format!("sload({k:#x}); sstore({k:#x},0)"), code: c, must: vec![k] });
+        // write 0, write 0 again
+        let mut c = vec![0x60, 0x00]; p32(&mut c, k); c.push(0x55); c.extend([0x60, 0x00]); p32(&mut c, k); c.extend([0x55, 0x00]);
+        cases.push(Case { ob: "slots.write_then_clear", what: format!("sstore({k:#x},0) twice"), code: c, must: vec![k] });
+        // the path runs off the end of the code: no STOP after the access
+        let mut c = vec![0x60, 0x01]; p32(&mut c, k); c.push(0x55);
+        cases.push(Case { ob: "slots.path_runs_off_the_end", what: format!("sstore({k:#x},1) as the final bytes"), code: c, must: vec![k] });
+        let mut c = vec![]; p32(&mut c, k); c.push(0x54);
+        cases.push(Case { ob: "slots.path_runs_off_the_end", what: format!("sload({k:#x}) as the final bytes"), code: c, must: vec![k] });
+        // a branch arm that stores and falls off the end while the other arm stops: CALLDATASIZE PUSH1 5 JUMPI STOP JUMPDEST PUSH1 2 PUSH32 k SSTORE
+        let mut c = vec![0x36, 0x60, 0x05, 0x57, 0x00, 0x5b, 0x60, 0x02]; p32(&mut c, k); c.push(0x55);
+        cases.push(Case { ob: "slots.path_runs_off_the_end", what: format!("jumpi arm: sstore({k:#x},2) then end of code"), code: c, must: vec![k] });
+    }
+    run_cases("c06_histories", cases);
+}
